@@ -181,6 +181,14 @@ def table_keys(ctx):
     keys = []
     for o in sys.modules['athlib.athlon_score']._scoring_table:
         keys.append(('athlon', o['event_code']))
+    # the table as the scorer holds it after it has been used with every option (a row added at run time counts as well)
+    am = sys.modules['athlib.athlon_score']
+    for a, k in ((('M', '800', 120.0), {'esaa': True}), (('F', '100', 13.0), {'age': 50}), (('M', '80H', 14.0), {'age': 60}), (('F', 'JT', 30.0), {})):
+        attach.call(am.score, *a, **k)
+    attach.call(am.performance, 'M', 'HJ', 700)
+    live = getattr(am, '_scoring_objects', None) or {}
+    for o in (live.values() if isinstance(live, dict) else []):
+        keys.append(('athlon-live', o.get('event_code') if isinstance(o, dict) else o))
     for r in sys.modules['athlib.hungarian_score'].FACTORS:
         keys.append(('hungarian', r[2]))
     for g, t in sys.modules['athlib.tyrving_score']._tyrvingTables.items():
